@@ -34,6 +34,11 @@
 //           'f' = run to its end (LZMA_FINISH; success or error). Then job B is initialised on the SAME handle and run with
 //           <slicingB>; its result must equal the reference.
 //           -> "ref=[result] runs=<n> diffs=<k> {diff=<history> [result]}"
+//   lzc <coder> <hex> <in>,<out>[x<repeat>] ...
+//           the real coder driven with EXACTLY these per-call windows (avail_in = min(<in>, bytes left), avail_out = <out>,
+//           LZMA_RUN); the twin of driver op lzr1/lzr2 (resumable LZMA model). LZMA_BUF_ERROR (second consecutive call without
+//           progress) is printed as LZMA_OK: the model has no such wrapper.
+//           -> "<ret>:<consumed>:<produced> ... | <last ret> <total_in> <out len>:<fnv64>"
 //   strrt <struct-chain>
 //           -> "ok <string>" if lzma_str_to_filters(lzma_str_from_filters(f)) = f field by field for the flag sets ENCODER,
 //              ENCODER|GETOPT_LONG, ENCODER|NO_SPACES|GETOPT_LONG (all options) and DECODER (decoder-relevant options);
@@ -923,6 +928,48 @@ int main(void)
 			if (c.block_filters_live) lzma_filters_free(c.block_filters, NULL);
 			coder_free(&c);
 			free(in);
+		} else if (!strcmp(op, "lzc") && l.ntok >= 3) {
+			coder c;
+			if (!coder_parse(l.tok[1], &c)) { printf("bad-coder\n"); continue; }
+			size_t n; uint8_t *in0 = hp_hex(l.tok[2], &n);
+			const uint8_t *in = in0;
+			lzma_stream strm = LZMA_STREAM_INIT;
+			c06_result r = {0};
+			c06_result_reset(&r);
+			alarm(g_run_timeout);
+			lzma_ret ir = coder_init(&c, &strm, &in, &n, &r);
+			if (ir != LZMA_OK) { alarm(0); printf("init=%d\n", (int)ir); lzma_end(&strm); free(in0); coder_free(&c); continue; }
+			size_t pos = 0;
+			lzma_ret last = LZMA_OK;
+			uint8_t dummy = 0;
+			bool firstcall = true;
+			for (int i = 3; i < l.ntok && last == LZMA_OK; ++i) {
+				unsigned long long a, b, rep = 1;
+				if (sscanf(l.tok[i], "%llu,%llux%llu", &a, &b, &rep) < 2) { printf("bad-piece "); break; }
+				for (unsigned long long k = 0; k < rep && last == LZMA_OK; ++k) {
+				size_t ain = a > n - pos ? n - pos : (size_t)a;
+				uint8_t *ib = malloc(ain ? ain : 1), *ob = malloc(b ? (size_t)b : 1);
+				if (ain) memcpy(ib, in + pos, ain);
+				strm.next_in = ain ? ib : &dummy; strm.avail_in = ain;
+				strm.next_out = b ? ob : &dummy; strm.avail_out = (size_t)b;
+				lzma_ret ret = lzma_code(&strm, LZMA_RUN);
+				size_t used = ain - strm.avail_in, made = (size_t)b - strm.avail_out;
+				if (ret == LZMA_BUF_ERROR) ret = LZMA_OK;
+				printf("%s%d:%zu:%zu", firstcall ? "" : " ", (int)ret, used, made);
+				firstcall = false;
+				c06_out_append(&r, ob, made);
+				pos += used;
+				last = ret;
+				free(ib); free(ob);
+				}
+			}
+			alarm(0);
+			printf(" | %d %" PRIu64 " %zu:%016" PRIx64 "\n", (int)last, (uint64_t)strm.total_in, r.out_len, c06_hash(r.out, r.out_len));
+			lzma_end(&strm);
+			c06_result_free(&r);
+			if (c.block_filters_live) lzma_filters_free(c.block_filters, NULL);
+			coder_free(&c);
+			free(in0);
 		} else if (!strcmp(op, "strrt") && l.ntok == 2) {
 			op_strrt(l.tok[1]);
 		} else if (c06_small_op(&l)) {
